@@ -26,7 +26,7 @@ def fe_key(fe):
 class SimRun(Engine):
     name = "simrun"
     props = ("C01", "C02")
-    nruns = {"quick": 2500, "thorough": 200000}
+    nruns = {"quick": 4000, "thorough": 200000}
     budgets = {"quick": 40.0, "thorough": 540.0}
     real_components = (
         "UPSequentialSimulator (one instance per run, reused by every query)", "GrounderHelper", "StateEvaluator / "
